@@ -374,7 +374,39 @@ def c08_7(ctx):
               "the polarity flag is set exactly for '#ifndef'", '; '.join(unparse(s[0]) for s in st))
 
 
-RULES = [c08_1, c08_2, c08_3, c08_6, c08_7]
+def mute_state(ctx):
+    ctx.rule('C08.M', 'mute state: saturating counter, muted iff counter > 0', 3)
+    cs = ctx.repo.cls(CS)
+    im = cs.methods['is_muted']
+    rr = returns(im)
+    r0 = resolver(ctx, im, inline=False)
+    from engine.lin import to_cnf
+    ok = len(rr) == 1 and to_cnf(rr[0].value, True, r0) == [frozenset({lit_cmp(ctx, im, 'self._mute_counter > 0', r0)})]
+    ctx.check(ok, 'mute:muted-iff-positive', im.site(), 'lines are muted iff the mute counter is positive', '; '.join(unparse(r) for r in rr))
+    inc, dec = cs.methods['_increment_mute_counter'], cs.methods['_decrement_mute_counter']
+    ai = [n for n in ast.walk(inc.node) if isinstance(n, ast.AugAssign)]
+    ctx.check(len(ai) == 1 and isinstance(ai[0].op, ast.Add) and unparse(ai[0].value) == '1' and unparse(ai[0].target) == 'self._mute_counter',
+              'mute:increment', inc.site(), '#mute raises the counter by one', '; '.join(unparse(a) for a in ai))
+    ad = [n for n in ast.walk(dec.node) if isinstance(n, ast.AugAssign)]
+    ok = len(ad) == 1 and isinstance(ad[0].op, ast.Sub) and unparse(ad[0].value) == '1'
+    if ok:
+        rd = resolver(ctx, dec, inline=False)
+        cl = facts_at(ctx, dec, ad[0], rd)
+        ok = clause_implies_(cl, lit_cmp(ctx, dec, 'self._mute_counter > 0', rd))
+    ctx.check(ok, 'mute:decrement-saturates', dec.site(), '#emit/#unmute lowers the counter only while it is positive (a surplus #emit is a no-op)',
+              '; '.join(unparse(a) for a in ad) + ' without a dominating `counter > 0` test: a surplus #emit makes the counter negative and the next '
+              '#mute no longer mutes')
+    init = cs.methods['__init__']
+    st = self_attr_stores(init.node, '_mute_counter')
+    ctx.check(len(st) == 1 and unparse(st[0][2]) == '0', 'mute:starts-unmuted', init.site(), 'a file starts unmuted', '; '.join(unparse(x[0]) for x in st))
+
+
+def clause_implies_(cl, lit):
+    from engine.lin import clause_implies
+    return clause_implies(cl, lit)
+
+
+RULES = [c08_1, c08_2, c08_3, c08_6, c08_7, mute_state]
 
 _CSF = 'assembler/preprocessor/condition_stack.py'
 _CF = 'assembler/preprocessor/condition.py'
@@ -432,6 +464,8 @@ MUTANTS = [
     V('c08-latch-lazy', _CF, '        self._latched_value = self.evaluate(preprocessor)\n        return self._latched_value', '        return self.evaluate(preprocessor)', 'C08.2'),
 ]
 MUTANTS += [
+    V('c08-mute-counter-negative', _CSF, '''        if self._mute_counter > 0:
+            self._mute_counter -= 1''', '''        self._mute_counter -= 1''', 'C08.M'),
     V('c08-scope-open-unselected', _AF, '''                            if lobj.compilable:
                                 if isinstance(lobj, LabelLine):
                                     if not lobj.is_constant \\
